@@ -20,6 +20,7 @@ template <class T> struct Job {
     size_t M, K, N, sizeofA, sizeofB, sizeofC;
     int form;
     void (*call)(const void* a, const void* b, void* c);   // a, b, c point at constructed tensor objects
+    int lhs_tag = 0, rhs_tag = 0;                          // C17: 0 general, 1 lower, 2 upper (operands zero outside the triangle)
 };
 
 // one library call of the selected form; the result object lives at cp (constructed, data = initial contents).
@@ -59,6 +60,13 @@ template <class T> struct Driver {
         b = (T*)(fx.arena[1].lo + 256);   // page-aligned start + 256: 64-byte aligned
         if ((size_t)((unsigned char*)a - (unsigned char*)b) < j.sizeofB + 64) { fprintf(stderr, "c01: operands too large for the arena\n"); abort(); }
     }
+    static bool allowed(int tag, size_t r, size_t c) { return tag == 0 || (tag == 1 ? c <= r : c >= r); }
+    bool okA(size_t p) const { return allowed(j.lhs_tag, p / j.K, p % j.K); }
+    bool okB(size_t q) const { return allowed(j.rhs_tag, q / j.N, q % j.N); }
+    void clip() {   // zero the operands outside their tagged triangle
+        if (j.lhs_tag) for (size_t p = 0; p < SA; ++p) if (!okA(p)) a[p] = T(0);
+        if (j.rhs_tag) for (size_t q = 0; q < SB; ++q) if (!okB(q)) b[q] = T(0);
+    }
     // frame: nothing outside the result *object* may change.  Bytes of the object's own alignment padding
     // (sizeof(C) > M*N*sizeof(T)) belong to the result object; writes there are unobservable and are only counted.
     void finish() {
@@ -85,8 +93,10 @@ template <class T> struct Driver {
         if (full) {
             fxv::fill_const(a, SA, T(0)); fxv::fill_const(b, SB, T(0));
             for (size_t p = 0; p < SA; ++p) {
+                if (!okA(p)) continue;
                 a[p] = T(1);
                 for (size_t q = 0; q < SB; ++q) {
+                    if (!okB(q)) continue;
                     b[q] = T(1);
                     fx.pt("scheme=basis,p=%lld,q=%lld", p, q);
                     eval_exact("basis");
@@ -97,11 +107,11 @@ template <class T> struct Driver {
             fx.route("scheme.basis_full");
         } else {
             fxv::fill_const(a, SA, T(0));
-            fxv::fill_addr(b, SB, 3, 11, 241, true);
-            for (size_t p = 0; p < SA; ++p) { a[p] = T(1); fx.pt("scheme=halfbasisA,p=%lld", p); eval_exact("halfbasis"); a[p] = T(0); }
+            fxv::fill_addr(b, SB, 3, 11, 241, true); clip();
+            for (size_t p = 0; p < SA; ++p) { if (!okA(p)) continue; a[p] = T(1); fx.pt("scheme=halfbasisA,p=%lld", p); eval_exact("halfbasis"); a[p] = T(0); }
             fxv::fill_const(b, SB, T(0));
-            fxv::fill_addr(a, SA, 1, 7, 251, true);
-            for (size_t q = 0; q < SB; ++q) { b[q] = T(1); fx.pt("scheme=halfbasisB,q=%lld", q); eval_exact("halfbasis"); b[q] = T(0); }
+            fxv::fill_addr(a, SA, 1, 7, 251, true); clip();
+            for (size_t q = 0; q < SB; ++q) { if (!okB(q)) continue; b[q] = T(1); fx.pt("scheme=halfbasisB,q=%lld", q); eval_exact("halfbasis"); b[q] = T(0); }
             fx.route("scheme.basis_half");
         }
     }
@@ -111,7 +121,7 @@ template <class T> struct Driver {
     void frac_impl(std::true_type) {
         if (j.form != F_MATMUL && j.form != F_ASSIGN && j.form != F_CTOR && j.form != F_ADD) return;
         e.resize(SC); bd.resize(SC);
-        fxv::fill_frac(a, SA, 1); fxv::fill_frac(b, SB, 2);
+        fxv::fill_frac(a, SA, 1); fxv::fill_frac(b, SB, 2); clip();
         fxv::ref_matmul_ld(a, b, e.data(), bd.data(), j.M, j.K, j.N);
         for (size_t i = 0; i < SC; ++i) c0[i] = j.form == F_ADD ? (T)(0.5 + (double)(i % 3)) : fxv::sentinel<T>::v();
         if (j.form == F_ADD) for (size_t i = 0; i < SC; ++i) { e[i] += (long double)c0[i]; bd[i] += fxv::unit_roundoff<T>::v() * (fxv::absl(e[i]) + bd[i]) * 2; }
@@ -124,11 +134,11 @@ template <class T> struct Driver {
     void run_all() {
         const bool positive_only = (j.form == F_DIV);
         fxv::fill_addr(a, SA, 1, 7, 251, !positive_only); fxv::fill_addr(b, SB, 3, 11, 241, !positive_only);
-        fx.pt("scheme=addr"); eval_exact("addr");
+        clip(); fx.pt("scheme=addr"); eval_exact("addr");
         fxv::Rng r(fx.seed ^ (j.M * 1000003ull + j.K * 10007ull + j.N * 101ull));
         for (int g = 0; g < 2; ++g) {
             fxv::fill_generic(a, SA, r, 255, positive_only); fxv::fill_generic(b, SB, r, 255, positive_only);
-            fx.pt("scheme=generic,g=%lld", g); eval_exact("generic");
+            clip(); fx.pt("scheme=generic,g=%lld", g); eval_exact("generic");
         }
         if (j.form != F_DIV) {
             const double cost = (double)SA * (double)SB * (double)(j.M * j.K * j.N);
@@ -149,3 +159,25 @@ template <class T, size_t M, size_t K, size_t N, int SHAPE, int FORM> static inl
 }
 
 } // namespace c01
+
+// C17: triangular matrix product.  Same driver; operands are zero outside the tagged triangle and basis probing is
+// restricted to in-triangle basis elements, so the general reference product is the oracle.
+namespace c17 {
+using namespace Fastor;
+template <int TAG> struct Tag; 
+template <> struct Tag<0> { using type = UpLoType::General; };
+template <> struct Tag<1> { using type = UpLoType::Lower; };
+template <> struct Tag<2> { using type = UpLoType::Upper; };
+template <class T, size_t M, size_t K, size_t N, int LT, int RT> static FX_NOINLINE void thunk(const void* ap, const void* bp, void* cpv) {
+    using A = Tensor<T, M, K>; using B = Tensor<T, K, N>; using C = Tensor<T, M, N>;
+    const A& a = *static_cast<const A*>(ap); const B& b = *static_cast<const B*>(bp); C* cp = static_cast<C*>(cpv);
+    fx::escape(ap); fx::escape(bp); fx::escape(cpv);
+    new (cp) C(tmatmul<typename Tag<LT>::type, typename Tag<RT>::type>(a, b));
+    fx::clobber();
+}
+template <class T, size_t M, size_t K, size_t N, int LT, int RT> static inline void tmm(fx::Ctx& fx) {
+    c01::Job<T> j{M, K, N, sizeof(Tensor<T, M, K>), sizeof(Tensor<T, K, N>), sizeof(Tensor<T, M, N>), c01::F_MATMUL, &thunk<T, M, K, N, LT, RT>};
+    j.lhs_tag = LT; j.rhs_tag = RT;
+    c01::run_job<T>(fx, j);
+}
+} // namespace c17
